@@ -498,7 +498,7 @@ class StateManager:
             logw, _ = self.compute_logw_and_logz(1.0)
             self._results_dict["logw"] = logw
 
-        return self._results_dict
+        return {k: self._ensure_copy(v) for k, v in self._results_dict.items()}
 
     def to_dict(self) -> dict:
         """
@@ -523,8 +523,10 @@ class StateManager:
         0.5
         """
         return {
-            "_current": self._current.copy(),
-            "_history": {k: list(v) for k, v in self._history.items()},
+            "_current": {k: self._ensure_copy(v) for k, v in self._current.items()},
+            "_history": {
+                k: [self._ensure_copy(a) for a in v] for k, v in self._history.items()
+            },
             "n_dim": self.n_dim,
         }
 
@@ -554,9 +556,16 @@ class StateManager:
         instance = cls(n_dim)
 
         if "_current" in state_dict:
-            instance._current.update(state_dict["_current"])
+            instance._current.update(
+                {k: instance._ensure_copy(v) for k, v in state_dict["_current"].items()}
+            )
         if "_history" in state_dict:
-            instance._history.update(state_dict["_history"])
+            instance._history.update(
+                {
+                    k: [instance._ensure_copy(a) for a in v]
+                    for k, v in state_dict["_history"].items()
+                }
+            )
 
         instance._invalidate_cache()
         return instance
@@ -584,9 +593,16 @@ class StateManager:
         0.5
         """
         if "_current" in state_dict:
-            self._current.update(state_dict["_current"])
+            self._current.update(
+                {k: self._ensure_copy(v) for k, v in state_dict["_current"].items()}
+            )
         if "_history" in state_dict:
-            self._history.update(state_dict["_history"])
+            self._history.update(
+                {
+                    k: [self._ensure_copy(a) for a in v]
+                    for k, v in state_dict["_history"].items()
+                }
+            )
         if "n_dim" in state_dict:
             self.n_dim = state_dict["n_dim"]
 
